@@ -152,12 +152,12 @@ func ParseRtpHeader(b []byte) (h RtpHeader, err error) {
 		extensionLength := bele.BeUint16(b[offset:])
 		offset += 2
 
-		if offset+int(4*extensionLength) > len(b) {
+		if offset+4*int(extensionLength) > len(b) {
 			return h, base.ErrRtpRtcpShortBuffer
 		}
 
-		h.Extensions = b[offset : offset+int(4*extensionLength)]
-		offset += int(4 * extensionLength)
+		h.Extensions = b[offset : offset+4*int(extensionLength)]
+		offset += 4 * int(extensionLength)
 	}
 
 	if offset >= len(b) {
